@@ -50,6 +50,8 @@ def adapter_entry(a):
         return ["prefix", a["prefix"]]
     if a["a"] == "drop":
         return ["drop", a["tag"]]
+    if a["a"] == "fail":
+        return ["fail", a.get("name", "X-Fail-Ad"), a.get("value", "1")]
     if a["a"] == "auth":
         return auth_entry(a["kind"], a)
     raise ValueError(a)
@@ -158,7 +160,7 @@ class HttpModel:
         for e in chain:
             if e[0] == "prefix":
                 prefixes.append(e[1])
-            elif e[0] == "hdr":
+            elif e[0] in ("hdr", "fail"):
                 headers[e[1]] = e[2]
             elif e[0] == "auth":
                 headers["Authorization"] = e[1]
@@ -191,7 +193,8 @@ class HttpModel:
         for k, v in headers.items():
             exp_headers[k.capitalize()] = v
         wraps = [(e[0], e[1]) for e in chain if e[0] in ("wrap", "drop")]
-        return {"url": url, "method": req["verb"].upper(), "body": body, "headers": exp_headers,
+        return {"can_fail": any(e[0] == "fail" for e in chain),
+                "url": url, "method": req["verb"].upper(), "body": body, "headers": exp_headers,
                 "auth": auth, "wraps": wraps, "ids": imp["ids"],
                 "caller_reqid": (req.get("headers") or {}).get("X-Request-ID")}
 
